@@ -388,7 +388,8 @@ def run(ctx):
                 outl = j.res["out"].split(nlb)
                 eao = vals.get("eat_blanks_after_open_brace") == "true"
                 ebc = vals.get("eat_blanks_before_close_brace") == "true"
-                ns_off = vals.get("nl_inside_namespace", "0") == "0" and vals.get("nl_inside_empty_func", "0") == "0"
+                # nl_inside_namespace > 0 / nl_inside_empty_func > 1 ask for blank lines next to those braces; 1 asks for none
+                ns_off = vals.get("nl_inside_namespace", "0") == "0" and vals.get("nl_inside_empty_func", "0") in ("0", "1")
                 in_cmt = False
                 for a, b2 in zip(outl, outl[1:] + [b"x"]):
                     sa = a.strip()
